@@ -242,19 +242,67 @@ def concrete(a, v, mname):
     return hg.concrete(a, v)
 
 
-def scenario_for(v, sid, svc, gometh, mname):
-    """svc is the runner's name of the service: <design dir>/<service name>."""
+def randomized(datum, a, v, rng):
+    """A different concrete member of the same value class (used by the random mode): letters of plain
+    strings, the content of byte strings, the other entries of lists / maps and map keys are drawn at random;
+    everything a rule or a shape looks at (numbers, lengths, special characters, enum members) is kept."""
+    import base64
+    if datum is None or rng is None:
+        return datum
+    free_text = a["rule"] not in ("enum", "format", "pattern") or True
+
+    def text(s):
+        if a["rule"] in ("enum", "format") or a["kind"] != "string":
+            return s
+        return "".join(rng.choice(hg.LETTERS + "klmnopqrstuvwxyz") if ch in hg.LETTERS else ch for ch in s)
+
+    def leaf(x):
+        if isinstance(x, str):
+            return text(x)
+        if isinstance(x, dict) and "$bytes" in x:
+            n = len(base64.b64decode(x["$bytes"]))
+            return {"$bytes": base64.b64encode(bytes(rng.randrange(1, 256) for _ in range(n))).decode()}
+        return x
+    nest = a["nest"]
+    if nest in ("direct", "alias"):
+        return leaf(datum)
+    if nest == "nested":
+        return {"v": leaf(datum["v"])}
+    if nest == "oneof":
+        return {"$union": datum["$union"], "value": leaf(datum["value"]) if v["cn"] == 1 else datum["value"]}
+    if nest == "elem":
+        out = [leaf(x) if i == len(datum) - 1 else x for i, x in enumerate(datum)]
+        if a["rule"] not in ("cminlen", "cmaxlen") and out:
+            out = [hg.filler(a)] * rng.randrange(0, 3) + out       # more (valid) entries in front
+        return out
+    if nest == "mapval":
+        m = dict(datum["$map"])
+        last = "k%d" % len(m)
+        if last in m:
+            m[last] = leaf(m[last])
+        if a["rule"] not in ("cminlen", "cmaxlen") and m:
+            for i in range(rng.randrange(0, 3)):
+                m["z%d" % i] = hg.filler(a)
+        return {"$map": m}
+    if nest == "mapkey":
+        return {"$map": {(text(k) if a["kind"] == "string" else k): rng.randrange(0, 100) for k in datum["$map"]}}
+    return datum
+
+
+def scenario_for(v, sid, svc, gometh, mname, rng=None):
+    """svc is the runner's name of the service: <design dir>/<service name>. Returns (scenario, sent payload datum,
+    sent result datum); with rng the data are random members of the value classes."""
     payload = {"a0": "abc"}
-    c = concrete(v["pa"], v["pv"], mname)
+    c = randomized(concrete(v["pa"], v["pv"], mname), v["pa"], v["pv"], rng)
     if c is not None:
         payload["a1"] = c
     if v.get("withmd"):
         payload["tok"] = "tkn"
     result = {"r0": "abc"}
-    c = concrete(v["ra"], v["rv"], mname)
-    if c is not None:
-        result["r1"] = c
-    return {"id": sid, "service": svc, "method": gometh, "payload": payload, "outcome": {"kind": "result", "value": result}}
+    rc = randomized(concrete(v["ra"], v["rv"], mname), v["ra"], v["rv"], rng)
+    if rc is not None:
+        result["r1"] = rc
+    return {"id": sid, "service": svc, "method": gometh, "payload": payload, "outcome": {"kind": "result", "value": result}}, c, rc
 
 
 # ------------------------------------------------------------------ projection: proto table
@@ -319,7 +367,31 @@ def unalt(x, mname):
     return x
 
 
-def project(v, events, mname):
+def empty(x):
+    return hg.empty(x) or x == {"$bytes": ""}
+
+
+def classify(dv, sent, dflt):
+    """Class of a delivered datum relative to what was sent: absent | sent | default | other
+    (an unset value and an empty list / map / byte string are the same 'nothing there')."""
+    if empty(dv) and (sent is None or empty(sent)):
+        return "absent" if sent is None else "sent"
+    return hg.classify(dv, sent, dflt)
+
+
+def emptyish(a, v):
+    return (not is_absent(v)) and ((a["nest"] in ("elem", "mapkey", "mapval") and v["cn"] == 0) or (a["kind"] == "bytes" and a["nest"] == "direct" and v["n"] == 0))
+
+
+def loc_of(where, a, sent):
+    """One token for the observed location set; '-' when the value is an empty container (it has no location to speak of)."""
+    if emptyish(a, sent):
+        return "-"
+    return "none" if not where else "+".join(where)
+
+
+def project(v, events, mname, sent, rsent):
+    """sent / rsent: the concrete payload / result datum of the attribute under test that was handed in."""
     pa, ra = v["pa"], v["ra"]
     o = {"invoked": False, "errname": "none", "cerr": "none", "where": None, "delivered": None, "rwhere": None, "returned": None, "anomalies": []}
     for bad in ("server_panic", "client_panic", "stream_unsupported"):
@@ -336,13 +408,12 @@ def project(v, events, mname):
         o["where"] = w
         o["wire_raw"] = {"msg": msg, "metadata": md}
     inv = find(events, "invoke")
-    sent = concrete(pa, v["pv"], mname)
     dflt = concrete(pa, hg.default_of(pa), mname) if pa["mode"] == "default" else None
     if inv:
         o["invoked"] = True
         o["invocations"] = len(inv)
         dp = unalt(inv[0].get("payload") or {}, mname)
-        o["delivered"] = hg.classify(dp.get("a1"), sent, dflt)
+        o["delivered"] = classify(dp.get("a1"), sent, dflt)
         o["delivered_raw"] = dp
         if dp.get("a0") != "abc" or (v.get("withmd") and dp.get("tok") != "tkn"):
             o["anomalies"].append("companion-attribute-changed")
@@ -368,9 +439,8 @@ def project(v, events, mname):
         if c.get("err") is None:
             o["cerr"] = "result"
             res = unalt(c.get("res") or {}, mname)
-            rsent = concrete(ra, v["rv"], mname)
             rdflt = concrete(ra, hg.default_of(ra), mname) if ra["mode"] == "default" else None
-            o["returned"] = hg.classify(res.get("r1") if isinstance(res, dict) else None, rsent, rdflt)
+            o["returned"] = classify(res.get("r1") if isinstance(res, dict) else None, rsent, rdflt)
             o["returned_raw"] = res
         else:
             e = c["err"]
